@@ -40,7 +40,7 @@ def byname_sequences(rng):
     a plain one followed by an indexed one, different widths for declaration and access, the same variable twice — every
     ordered pair of (la | load | store) x (index 0 / none / 1 / 2). What one by-name line computes must not leak into the next."""
     decls = [("arr", "word", [11, 22, 33, 44]), ("total", "word", [7]), ("hs", "half", [300, -2, 5, 9]), ("bs", "byte", [1, 2, 3, 4, 5, 6, 7, 8]),
-             ("msg", "string", "abcdefgh"), ("zz", "zero", 3)]
+             ("msg", "string", "abcdefgh"), ("zz", "zero", 3), ("big", "word", [100 + i for i in range(20)]), ("bb", "byte", list(range(1, 21)))]
     acc = []
     for nm, w_mns in (("arr", ("lw", "sw")), ("total", ("lw", "sw")), ("hs", ("lh", "sh")), ("bs", ("lbu", "sb")), ("msg", ("lbu", "sb")), ("zz", ("lw", "sw"))):
         for idx in (None, 0, 1, 2):
@@ -49,6 +49,9 @@ def byname_sequences(rng):
             acc.append(("la", 5, nm, idx))
             acc.append(("loadv", w_mns[0], 6, nm, idx))
             acc.append(("storev", w_mns[1], 7, nm, idx, 28))
+    for nm, w_mns in (("big", ("lw", "sw")), ("bb", ("lbu", "sb"))):          # indices with more than one digit
+        for idx in (9, 10, 17, 19):
+            acc += [("la", 5, nm, idx), ("loadv", w_mns[0], 6, nm, idx), ("storev", w_mns[1], 7, nm, idx, 28)]
     # mixed widths: byte and half-word loads of word variables and vice versa (aligned elements only)
     acc += [("loadv", "lbu", 6, "arr", 1), ("loadv", "lh", 6, "arr", 2), ("loadv", "lw", 6, "bs", 4), ("loadv", "lhu", 6, "msg", 4), ("loadv", "lb", 6, "zz", 1)]
     rng.shuffle(acc)
